@@ -45,7 +45,13 @@ def rt_script(i, build, d, c):
     R = ROOT + "/rt%d" % (i % 16)
     dd, cc = hx(bytes([d])), hx(bytes([c]))
     s = ["mkdir %s" % hx(R)] + build(R, dd, cc)
-    s += ["settags 1 %s %s" % (dd, cc), "dumpx 1", "write 1 %s %s" % (hx(R), hx("out.conf")), "cat %s" % hx(R + "/out.conf"),
+    pre = []
+    if i % 2:
+        # "for every choice of delimiter and comment character on the object": the object was already written once with another
+        # pair of characters before it is written with the pair in hand
+        od, oc = ((58, 59) if (d, c) != (58, 59) else (61, 35))
+        pre = ["settags 1 %s %s" % (hx(bytes([od])), hx(bytes([oc]))), "write 1 %s %s" % (hx(R), hx("pre.conf"))]
+    s += ["settags 1 %s %s" % (dd, cc), "dumpx 1"] + pre + ["settags 1 %s %s" % (dd, cc), "write 1 %s %s" % (hx(R), hx("out.conf")), "cat %s" % hx(R + "/out.conf"),
           "readfile 2 %s %s %s" % (hx(R + "/out.conf"), dd, cc), "dumpx 2", "free 1", "free 2"]
     return s
 
@@ -241,7 +247,7 @@ def check(pid, tier, seed):
     samples = [{"history": it["label"], "d": chr(it["d"]), "c": chr(it["c"]), "expected": it["want"]} for it in items[500:502] if it.get("want")]
     cov = {"states": states, "transitions": states, "traces_validated_against_impl": ok + acc,
            "evaluations": len(items), "distinct_nontrivial": nt,
-           "rule": "MC_RoundTrip: every object reachable by <= %d setter calls over {group-less,A,B} x {x,y} x {\"\", v, 'a b', two-line value} (every interleaving, re-opened sections, overwrites) x (delimiter,comment) in {= #, : ;, space #, = ;}, and every object parsed from a conventional file of <= 3 lines (quoted values, comments before / after, continuation lines) x {=,space} x {#,;}: RoundTrips on the model; each exported case built in the library, written, read back, observable compared before/after (%d cases); + %d random histories of <= 40 calls and %d random conventional files whose written bytes are re-parsed by the specification (Trace_RoundTrip; %d outside the unambiguous class skipped); + values set through the API whose single / first / middle / last line is BUFSIZ-2 .. BUFSIZ+1, 2*BUFSIZ+3 and 20 000 (thorough 70 000) bytes long, written and read back; + %d mixed API histories in which written files are read back, merged and written again, validated against the root specification Econf.tla. non-trivial = group-less key after a sectioned one, re-opened section, multi-line value or comment." % (
+           "rule": "MC_RoundTrip: every object reachable by <= %d setter calls over {group-less,A,B} x {x,y} x {\"\", v, 'a b', two-line value} (every interleaving, re-opened sections, overwrites) x (delimiter,comment) in {= #, : ;, space #, = ;}, and every object parsed from a conventional file of <= 3 lines (quoted values, comments before / after, continuation lines) x {=,space} x {#,;}: RoundTrips on the model; each exported case built in the library, written (every second one after an earlier write with another pair of characters), read back, observable compared before/after (%d cases); + %d random histories of <= 40 calls and %d random conventional files whose written bytes are re-parsed by the specification (Trace_RoundTrip; %d outside the unambiguous class skipped); + values set through the API whose single / first / middle / last line is BUFSIZ-2 .. BUFSIZ+1, 2*BUFSIZ+3 and 20 000 (thorough 70 000) bytes long, written and read back; + %d mixed API histories in which written files are read back, merged and written again, validated against the root specification Econf.tla. non-trivial = group-less key after a sectioned one, re-opened section, multi-line value or comment." % (
                3 if tier == "quick" else 4, len(items) - 2 * nr, nr, nr, skipped, nmix),
            "samples": samples, "exhaustive": tier == "thorough", "skipped_outside_class": skipped,
            "trusted_base": ["TLC 1.8.0", "gcc ASan/UBSan", "drv.c"]}
